@@ -41,6 +41,10 @@ def max_arity(argnames, cap):
     return min(len(argnames), cap)
 
 
+class Names(tuple):
+    """the pool names of a case; may carry .inline, the case written as a single expression"""
+
+
 def call_cases(callees, max_ar, rng=None, triple_sample=None):
     """yield (callee display, kind, program text, names tuple)"""
     for disp, expr, argnames in callees:
@@ -52,6 +56,9 @@ def call_cases(callees, max_ar, rng=None, triple_sample=None):
             for names in tuples:
                 pre = "; ".join("def %s = %s" % (VARS[i], P.POOL_SRC[n]) for i, n in enumerate(names))
                 call = "%s(%s)" % (expr, ", ".join(VARS[:k]))
+                names = Names(names)
+                # the same call as a program that is one expression and nothing else (no block around it)
+                names.inline = "%s(%s)" % (expr, ", ".join("(%s)" % P.POOL_SRC[n] for n in names))
                 yield disp, "call", (pre + "; " if pre else "") + call, names
         # the very same value in two (three) argument positions
         if k_max >= 2:
